@@ -3,6 +3,7 @@ package main
 import (
 	"fmt"
 	"go/token"
+	"go/types"
 	"strings"
 
 	"golang.org/x/tools/go/ssa"
@@ -297,6 +298,7 @@ func runC20(c *Ctx) {
 
 func c20Attributes(c *Ctx) {
 	p := c.P
+	c20InstallReportsEveryConflict(c)
 	set := p.Fn("lfs", "(*Attribute).set")
 	if set == nil {
 		c.Missing("R4", "(*lfs.Attribute).set", "not found")
@@ -506,4 +508,42 @@ func c20ExistsVerdict(p *Prog, v ssa.Value) (bool, string) {
 		return false, "the path examined is not the hook's own path"
 	}
 	return true, ""
+}
+
+// c20InstallReportsEveryConflict (R4, all keys): Install sets the four filter.lfs.* keys one after the other; a
+// conflict on any of them has to come back as the error of Install. The error of each set call is returned before
+// the next key is tried (or at least never overwritten by a later success).
+func c20InstallReportsEveryConflict(c *Ctx) {
+	p := c.P
+	fn := p.Fn("lfs", "(*Attribute).Install")
+	if fn == nil {
+		c.Missing("R4", "(*lfs.Attribute).Install", "not found")
+		return
+	}
+	n := 0
+	for _, ci := range CallsIn(fn, "(*lfs.Attribute).set") {
+		call, ok := ci.(*ssa.Call)
+		if !ok {
+			continue
+		}
+		n++
+		// after this call failed, every feasible continuation returns a non-nil error — whatever later calls answer
+		escaped := ""
+		init := PState{nonNil{call}: boolConst(true, types.Typ[types.Bool])}
+		ExploreX(nil, call, init, nil, nil, nil, func(in ssa.Instruction, st PState) bool {
+			r, isRet := in.(*ssa.Return)
+			if !isRet || r.Block().Comment == "recover" {
+				return escaped == ""
+			}
+			ev := Base(Resolve(r.Results[len(r.Results)-1], st), st)
+			if _, nn := st[nonNil{ev}]; nn || NeverNil(ev) {
+				return false
+			}
+			escaped = p.InstrPos(r)
+			return false
+		})
+		c.Check(escaped == "", "R4", fmt.Sprintf("Install:conflict-is-returned#%d", n), p.InstrPos(ci), "a conflict on any key is what Install returns",
+			"after one filter.lfs.* key reported a conflict Install can still return no error ("+escaped+"): the error is overwritten by the next key's success, `git lfs install` prints success and exits 0 while the user's value is still in place")
+	}
+	c.AtLeast("R4", "set calls in Attribute.Install", n, 1)
 }
